@@ -55,10 +55,13 @@ def gen_c16(seed, policy=None):
         agents[b] = {"target": "Sa", "attr": rng.choice(["i", "i2"]), "p": rng.choice([0.5, 0.8, 1.0]), "eid": f"E{rng.randrange(sims[0]['nent'])}"}
     if rng.random() < 0.4:
         sims.append({"sid": "Sd", "type": "time-based", "gpath": []})
-        conns.append({"src": "Sd", "dst": "Sa", "sa": "p", "da": "i2" if all(a["attr"] == "i" for a in agents.values()) else "i"})
-        # keep set_data slots and connection slots apart (interface decision: a slot has one writer kind)
-        for a in agents.values():
-            a["attr"] = "i" if conns[-1]["da"] == "i2" else "i2"
+        conns.append({"src": "Sd", "dst": "Sa", "sa": "p", "da": rng.choice(["i", "i2"])})
+        # half of the time the set_data slots and the connection slot are kept apart, otherwise an agent may write to
+        # the attribute that the ordinary connection feeds as well (inputs are keyed by source, so both must arrive:
+        # the connection's value in every step, the agent's value exactly once)
+        if rng.random() < 0.5:
+            for a in agents.values():
+                a["attr"] = "i" if conns[-1]["da"] == "i2" else "i2"
     illegal = []
     if rng.random() < 0.4:
         # a simulator that is connected to an agent by an ORDINARY connection only: requests towards it must still be refused
